@@ -6,7 +6,46 @@ props = [json.loads(l)['id'] for l in open('/verif/properties.jsonl')]
 TB = ("Trusted: govc (own VC generator over go/ast+go/types; value model for slices/maps under a no-aliasing discipline), "
       "z3 4.8.12 / z3 5.1.0 / cvc5 1.0.3, go/types; integers mathematical; strings uninterpreted. ")
 
+DRV = ("The generated parsers are verified as rendered text: on every run an injected test runs the real generator on the example grammars in all four "
+       "Go modes; the static driver functions (Action, PushStateSym, PopStateSym, ParserInit, ReduceFunc shell, Parser, fetchLookAhead, TraceShift) of the "
+       "goCode and goObject renderings, packed and unpacked, are put under ONE contract text (goObject through renamings) and every obligation is discharged "
+       "by SMT; the per-rule reduce cases are replaced mechanically by one schematic case whose holes are tied to the grammar by `emits` obligations on "
+       "buildReduceFunc/buildConstPart, and every rendered case must have that shape. ")
+DRVNOTE = (TB + "Hypotheses used as axioms (not proved here): the LR(0)-automaton facts AP0-AP2 and the table encoding TC/TCgoto/TC0 (DESIGN §4; postconditions of "
+       "GenTable / the LR(0) construction, which are not yet under contract), SIZES, INV-R for goto lookups in packed mode, packed-lookup == dense table "
+       "(TrySplitTable's proved postcondition, assumed at the interface). Trusted contracts: translate, GetToken (user code), TraceTranslate, TraceReduce, "
+       "actionCodeReplace; assumption A-act (semantic actions touch only $$/$n). Interior pointers &stack[i] are modelled as snapshots; slice capacity/aliasing "
+       "is not modelled. Literature lemma (stated, not mechanised): a shift-reduce run whose every reduction pops rhs(r) and pushes lhs(r) is a reversed rightmost derivation. "
+       "The TypeScript driver string is not verified (only the numbers the Go code emits into it).")
 claimed = {
+ "C01": dict(
+   text=DRV + "C01: every loop iteration consults T(top state, lookahead); a reduction by r is taken only when the top |rhs r| stack symbols are rhs(r) (lemma L, "
+        "proved by induction as two SMT queries) and pushes (goto(top', lhs r), lhs r); accept only in configuration [0, goto(0,S)] on the end marker; "
+        "CheckAndResolveConflict's surviving action is a candidate of its cell.",
+   note=DRVNOTE, design="§5 C01, §3.8, Appendix A.6", technique="contract-based deductive verification of the rendered driver (govc VC generator + SMT, lemma by induction)"),
+ "C06": dict(
+   text=DRV + "C06: every index / nil / type-assertion obligation of the driver functions is discharged under the stack invariant (no crash other than the documented "
+        "panic whose text starts with `Grammar error`); the ERROR test precedes the shift (a shift happens only on a cell that is a transition of the automaton); a non-nil "
+        "result is returned only in the accepting configuration; both builders emit ERROR_ACTION = nStates+100 and ACCEPT_ACTION = nStates+200 (emits obligations; this "
+        "found the TypeScript constant 0, now fixed).",
+   note=DRVNOTE + " The correct-prefix property and termination of LALR parsing (first bad token, finitely many steps) are literature theorems, not decided by these contracts.",
+   design="§5 C06", technique="contract-based deductive verification (safety obligations + emits contracts)"),
+ "C07": dict(
+   text=DRV + "C07: in ReduceFunc the window Dollar[0..n] is exactly the top n+1 stack entries and $$ starts as a fresh zero value; in Parser those entries carry the "
+        "symbols rhs(r,0..n-1) (lemma L); window size == pop count == |rhs| (emits); the value returned on accept is the ValType of the entry for the start symbol.",
+   note=DRVNOTE + " The text substitution $n -> Dollar[n].<tag> (actionCodeReplace) is not yet under contract; a stale token value at shift is not covered.",
+   design="§5 C07", technique="contract-based deductive verification of the rendered driver"),
+ "C08": dict(
+   text=DRV + "C08: the goCode and goObject renderings, packed and unpacked, are verified against the same contract text (renaming StateSymStack/StackPointer to "
+        "c.StackSym/c.Stackpos): each refines the same step specification over T; both builders emit the same constants and per-rule numbers (shared emits clauses).",
+   note=DRVNOTE, design="§5 C08", technique="contract-based deductive verification: two implementations against one contract"),
+ "C15": dict(
+   text=DRV + "C15: ParserInit establishes StackPointer==1 with bottom entry (0,$,zero); PushStateSym never writes below the old stack pointer; every stack read of the driver is "
+        "below the stack pointer (bounds obligations under INV); $$ of every reduction is a fresh zero value (no state carried between reductions or parses); object-mode "
+        "methods modify only their own context (frame obligations).",
+   note=DRVNOTE + " Data-race freedom of different contexts is argued from the frames (disjoint write sets, read-only tables), not model-checked. Reuse of the stack's backing "
+        "array across ParserInit (aliasing of a previously returned *ValType) is outside the value model of slices.",
+   design="§5 C15", technique="contract-based deductive verification of the rendered driver (postconditions + frames)"),
  "C19": dict(
    text="Typestate/effect contract on the real TemplateGenFromString, TsGenFromString and WriteFile: after the call of os.Create only calls from an "
         "explicit input-infallible list may follow (fmt.Errorf, WriteFile / WriteString / Close); WriteFile itself is io_only; every function of the "
